@@ -125,11 +125,12 @@ func (d *Decimal) setString(c *Context, s string) (Condition, error) {
 	s, consumed := consumePrefix(s, "nan")
 	if consumed {
 		isNaN = true
-	}
-	s, consumed = consumePrefix(s, "snan")
-	if consumed {
-		isNaN = true
-		d.Form = NaNSignaling
+	} else {
+		s, consumed = consumePrefix(s, "snan")
+		if consumed {
+			isNaN = true
+			d.Form = NaNSignaling
+		}
 	}
 	if isNaN {
 		if s != "" {
